@@ -88,7 +88,15 @@ def engine_suite(run, scratch, seed, n, oracle_fns=(), profile=None, name="engin
                       found_input=found or True)
     samples = [{"name": c["name"], "tree": c["tree"], "ops": c["ops"][:8], "comm": c["comm"], "intpos": c["intpos"]}
                for c in cases[:2]]
-    return {"_kept": [(c, ic) for c, v, d, ic, mc in res if ic] if keep else None,
+    # the extracted binary against the kernel's own evaluation of the model, on a sample of this run's cases
+    import vmx
+    vm = vmx.crosscheck(cases[:12])
+    if not vm["coqc_ok"] or vm["equal"] != vm["cases"]:
+        run.violation({"suite": name, "vm_crosscheck": vm,
+                       "broken": "cross-check of the extracted binary (extraction, OCaml, driver.ml) against vm_compute of the same definitions"},
+                      "the extracted model binary and the kernel's vm_compute disagree on %s (or cases.v did not compile: %s)"
+                      % (vm["differing"], vm["stderr"][-200:]), found_input=False)
+    return {"_kept": [(c, ic) for c, v, d, ic, mc in res if ic] if keep else None, "vm_crosscheck": vm,
             "evaluations": len(cases), "distinct_nontrivial": len(nontrivial),
             "traces_validated_against_impl": tally["equal"] + tally["drift"], "bit_drift": tally["drift"],
             "disagreements": tally["diff"], "ops_executed": steps_total, "op_histogram": ops_hist,
@@ -212,9 +220,12 @@ def alloc_cases(seed, tier):
         if prior != 0.0:
             ops.append(["transact", [1], hx(prior), None, True, None])
             ops.append(["update", 0])
-        # exact close-out amounts now and then
+        # exact close-out amounts now and then, and amounts just beside them (relative distance 2^-14 .. 2^-40):
+        # only the exact amount takes the close-out shortcut
         if prior != 0.0 and i % 11 == 0:
             amt = -(prior * p * m)
+        elif prior != 0.0 and i % 11 == 5:
+            amt = -(prior * p * m) * (1.0 + rng.choice([1, -1]) * 2.0 ** -rng.choice([14, 18, 22, 30, 40]))
         ops.append(["allocate", [1], hx(amt), None, True])
         ops.append(["update", 0])
         cases.append({"name": "a%06d" % i, "nrows": 2, "intpos": ip, "comm": comm, "prices": [[1, [hx(p), hx(p)]]],
@@ -1244,6 +1255,16 @@ def _secs(t):
     return out
 
 
+def reports_and_histories(side):
+    """reading while running legitimately advances the clocks of idle securities (the model is not read): for such runs
+    compare what the property is about, the reports and the recorded histories"""
+    return {"build": side["build"], "steps": [
+        {"status": st["status"],
+         "state": {k: v for k, v in st["state"].items()
+                   if k.startswith(("RV ", "RT ")) or k.endswith(".stat") or k.split(" ")[1].startswith(("h_", "hg_", "ucol."))}}
+        for st in side["steps"]]}
+
+
 def report_suite(run, scratch, seed, n, name="reports"):
     import gen_backtest
     import oracles as O
@@ -1276,15 +1297,7 @@ def report_suite(run, scratch, seed, n, name="reports"):
                         extra[key] = st["state"][key]          # kept: compared with the model's reports
             ic2, mc2 = ic, mc
             if c.get("peek"):
-                # reading while running legitimately advances the clocks of idle securities (the model is not read):
-                # compare what the property is about, the reports and the recorded histories
-                def keep(side):
-                    return {"build": side["build"], "steps": [
-                        {"status": st["status"],
-                         "state": {k: v for k, v in st["state"].items()
-                                   if k.startswith(("RV ", "RT ")) or k.endswith(".stat") or k.split(" ")[1].startswith(("h_", "hg_", "ucol."))}}
-                        for st in side["steps"]]}
-                ic2, mc2 = keep(ic), keep(mc)
+                ic2, mc2 = reports_and_histories(ic), reports_and_histories(mc)
             v, d = common.compare_case(ic2, mc2)
             tally[v] += 1
             if v == "diff" and first_diff is None:
